@@ -42,6 +42,7 @@ def make_alg(name, problem, n=5, g=2):
 
 def two_obj_problem(bounds=None, dim=2):
     bounds = bounds or [[0.0, 4.0]] * dim
+    dim = len(bounds)
 
     def f(ind):
         x = ind.vector
@@ -129,7 +130,9 @@ class Moves(Part):
         # update_velocity on a real swarm with leaders: every component must end within +/- half the range
         rng = pyrandom.Random(case["cseed"])
         pyrandom.seed(case["cseed"])
-        bounds = rng.choice([[[0.0, 4.0], [0.0, 4.0]], [[-3.0, -1.0], [1e-9, 2e-9]], [[-1e6, 1e6], [100.0, 100.5]]])
+        bounds = rng.choice([[[0.0, 4.0], [0.0, 4.0]], [[-3.0, -1.0], [1e-9, 2e-9]], [[-1e6, 1e6], [100.0, 100.5]],
+                             # parameters of very different widths, the widest last / in the middle / first
+                             [[1e-9, 2e-9], [-1e6, 1e6]], [[100.0, 101.0], [-3.0, -1.0], [0.0, 1000.0]], [[0.0, 0.5], [-50.0, 50.0], [2.0, 3.0]]])
         problem = two_obj_problem(bounds)
         alg = make_alg(case["alg"], problem)
         swarm = []
@@ -140,7 +143,7 @@ class Moves(Part):
             ind.features['best_vector'] = [rng.uniform(b[0], b[1]) for b in bounds]
             ind.features['best_cost'] = list(ind.costs_signed)
             ind.features['crowding_distance'] = rng.random()
-            ind.features['velocity'] = [0.0, 0.0]
+            ind.features['velocity'] = [0.0] * len(bounds)
             swarm.append(ind)
         for ind in swarm[:3]:
             alg.leaders.add(ind)
